@@ -722,4 +722,293 @@ theorem seg_index (xs ys : List Tok) (hx : Seg xs) (hy : Seg ys) : Seg (xs ++ [.
   · obtain ⟨f, hff, hfS⟩ := hx.first
     exact ⟨f, by simp only [List.append_assoc]; rw [head?_append_ne _ _ hx.piece.ne]; exact hff, hfS⟩
 
+
+theorem ident_facts (n : String) (h : identOk n = true) :
+    tokOk (.ident n) = true ∧ (txt (.ident n)).head? ≠ some '/' ∧ txt (.ident n) ≠ ['}'] ∧
+      ∀ σ nl, step σ (lexTok nl (.ident n)) = operandEnd σ := by
+  refine ⟨h, ?_, ?_, fun σ nl => by rw [step_name σ nl (.ident n) n rfl rfl, stepName_ident σ n h]⟩
+  · simp only [identOk, Bool.and_eq_true] at h
+    have hn := h.1.1.1
+    simp only [txt, tokText]
+    cases hs : n.toList with
+    | nil => simp
+    | cons c r =>
+      rw [hs] at hn
+      have : isIdStart c = true := by simp [nameOk] at hn; exact hn.1
+      simp only [List.head?_cons, ne_eq, Option.some.injEq]
+      intro e; subst e; exact absurd this (by decide)
+  · simp only [identOk, Bool.and_eq_true] at h
+    have hn := h.1.1.1
+    simp only [txt, tokText]
+    intro e
+    rw [e] at hn
+    exact absurd hn (by decide)
+
+/-- `x . name` where `x` does not end in a bare decimal integer -/
+theorem seg_dot (xs : List Tok) (n : String) (hx : Seg xs) (hnp : ∃ a, xs.getLast? = some a ∧ plainInt a = false)
+    (hn : identOk n = true) : Seg (xs ++ [.p ".", .ident n]) := by
+  obtain ⟨a, ha, hap⟩ := hnp
+  have haE : isE a = true := by
+    obtain ⟨a', ha', h'⟩ := hx.last
+    rw [ha] at ha'; injection ha' with e; subst e; exact h'
+  obtain ⟨hok, h1, h2, hstep⟩ := ident_facts n hn
+  have pid := piece_atom (.ident n) hok hstep h1 h2
+  have p1 := Piece.append hx.piece piece_dot (fun σ h => trivial) a (.p ".") ha rfl (adj_E_dot a haE hap)
+  have p2 := Piece.append p1 pid (fun σ h => trivial) (.p ".") (.ident n) (last_snoc _ _) rfl (adj_dot_ident n hn)
+  have e : xs ++ [.p ".", .ident n] = xs ++ [.p "."] ++ [.ident n] := by simp
+  rw [e]
+  refine ⟨p2.conv (fun _ h => h) (fun σ h => rfl), ?_, ⟨.ident n, last_snoc _ _, rfl⟩⟩
+  obtain ⟨f, hf, hfS⟩ := hx.first
+  exact ⟨f, by simp only [List.append_assoc]; rw [head?_append_ne _ _ hx.piece.ne]; exact hf, hfS⟩
+
+theorem num_facts (k : Nat) (bd : Bool) :
+    (txt (.num k bd)).head? ≠ some '/' ∧ txt (.num k bd) ≠ ['}'] := by
+  have hd : ∃ c r, txt (.num k bd) = c :: r ∧ c.isDigit = true := by
+    rcases num_shape k bd with ⟨ds, hw, hd, hne, _⟩ | ⟨ds, hw, hd, hne, _⟩ | ⟨m, z, hw, hm, hmne, _, _, _⟩
+    · cases ds with
+      | nil => exact absurd rfl hne
+      | cons c r => exact ⟨c, r, hw, hd c (by simp)⟩
+    · cases ds with
+      | nil => exact absurd rfl hne
+      | cons c r => exact ⟨c, r ++ ['.'], hw, hd c (by simp)⟩
+    · cases m with
+      | nil => exact absurd rfl hmne
+      | cons c r => exact ⟨c, r ++ 'e' :: z, hw, hm c (by simp)⟩
+  obtain ⟨c, r, hw, hc⟩ := hd
+  rw [hw]
+  refine ⟨?_, ?_⟩
+  · simp only [List.head?_cons, ne_eq, Option.some.injEq]; intro e; subst e; exact absurd hc (by decide)
+  · intro e; injection e with e1 _; subst e1; exact absurd hc (by decide)
+
+/-- `5..name`: a decimal integer literal, the dot that ends it, the member dot, the name -/
+theorem seg_numdot (k : Nat) (n : String) (hn : identOk n = true) : Seg [.num k true, .p ".", .ident n] := by
+  obtain ⟨hok, h1, h2, hstep⟩ := ident_facts n hn
+  have pid := piece_atom (.ident n) hok hstep h1 h2
+  have pn := piece_atom (.num k true) rfl (fun σ nl => step_num σ nl k true) (num_facts k true).1 (num_facts k true).2
+  have p1 := Piece.append pn piece_dot (fun σ h => trivial) (.num k true) (.p ".") rfl rfl (adj_numdot k)
+  have p2 := Piece.append p1 pid (fun σ h => trivial) (.p ".") (.ident n) rfl rfl (adj_dot_ident n hn)
+  exact ⟨p2.conv (fun _ _ => trivial) (fun σ h => rfl), ⟨.num k true, rfl, rfl⟩, ⟨.ident n, rfl, rfl⟩⟩
+
+/-! ## all trees of the grammar -/
+
+def litOk : Lit → Bool
+  | .str s => wfStr s
+  | _ => true
+
+mutual
+/-- names are plain identifiers (also behind a dot), strings are in the modelled alphabet -/
+def treeOk : E → Bool
+  | .var n => identOk n
+  | .lit l => litOk l
+  | .unary _ x => treeOk x
+  | .bin _ x y => treeOk x && treeOk y
+  | .cond c x y => treeOk c && treeOk x && treeOk y
+  | .comma l => treeOkL l
+  | .call f a => treeOk f && treeOkL a
+  | .dot x n => treeOk x && identOk n
+  | .index x y => treeOk x && treeOk y
+  | .group x => treeOk x
+def treeOkL : List E → Bool
+  | [] => true
+  | a :: t => treeOk a && treeOkL t
+end
+
+theorem treeOkL_mem (l : List E) (h : treeOkL l = true) : ∀ a ∈ l, treeOk a = true := by
+  induction l with
+  | nil => intro a ha; cases ha
+  | cons b t ih =>
+    simp only [treeOkL, Bool.and_eq_true] at h
+    intro a ha
+    cases ha with
+    | head => exact h.1
+    | tail _ h' => exact ih h.2 a h'
+
+theorem gwfAItems_mem (l : List E) (h : gwfAItems l = true) : ∀ a ∈ l, gwfA a = true := by
+  induction l with
+  | nil => intro a ha; cases ha
+  | cons b t ih =>
+    simp only [gwfAItems, Bool.and_eq_true] at h
+    intro a ha
+    cases ha with
+    | head => exact h.1.2
+    | tail _ h' => exact ih h.2 a h'
+
+/-- a comma-separated list of expressions -/
+theorem seg_sep (l : List E) (hne : l ≠ []) (h : ∀ a ∈ l, Seg (yield a)) : Seg (yieldSep l) := by
+  induction l with
+  | nil => exact absurd rfl hne
+  | cons x t ih =>
+    cases t with
+    | nil => simpa [yieldSep] using h x (by simp)
+    | cons y t' =>
+      have hx := h x (by simp)
+      have hr := ih (by simp) (fun a ha => h a (by simp [ha]))
+      have := seg_infix (yield x) (yieldSep (y :: t')) (.p ",") hx hr (piece_binop "," (by decide))
+        (fun a _ haE => adj_E_follower a haE "," (by decide))
+        (fun b hb hbS => adj_leader_S "," (by decide) b hb hbS)
+      simpa [yieldSep] using this
+
+theorem binop_lists (op : BOp) (h : op.isWord = false) :
+    op.text ∈ plainOps ∧ op.text ∈ followers ∧ op.text ∈ leaders := by
+  cases op <;> first | (exact absurd h (by decide)) | decide
+
+
+theorem yield_dot_gen (x : E) (n : String) (h : ∀ k, x ≠ .lit (.num k)) :
+    yield (.dot x n) = yield x ++ [.p ".", .ident n] := by
+  rw [yield]
+  exact fun k e => h k e
+
+/-- the last token of a member / call / primary expression other than a numeric literal is not a bare integer -/
+theorem last_not_plain (x : E) (hl : lvCall ≤ lvl x) (hn : ∀ k, x ≠ .lit (.num k)) (hx : Seg (yield x)) :
+    ∃ a, (yield x).getLast? = some a ∧ plainInt a = false := by
+  cases x with
+  | var n => exact ⟨.ident n, by simp [yield], rfl⟩
+  | lit l =>
+    cases l with
+    | num k => exact absurd rfl (hn k)
+    | str s => exact ⟨.str s, by simp [yield], rfl⟩
+    | «true» => exact ⟨.kw "true", by simp [yield], rfl⟩
+    | «false» => exact ⟨.kw "false", by simp [yield], rfl⟩
+    | null => exact ⟨.kw "null", by simp [yield], rfl⟩
+  | unary op x => simp [lvl, lvCall, lvUpdate, lvUnary] at hl; split at hl <;> omega
+  | bin op x y =>
+    have : ∀ o : BOp, ¬ lvCall ≤ opLevel o := by intro o; cases o <;> decide
+    exact absurd hl (this op)
+  | cond c x y => exact absurd hl (by simp [lvl]; decide)
+  | comma l => exact absurd hl (by simp [lvl]; decide)
+  | call f args => exact ⟨.p ")", by simp only [yield]; exact last_snoc _ _, rfl⟩
+  | dot y n =>
+    refine ⟨.ident n, ?_, rfl⟩
+    simp only [yield]
+    rw [show ∀ (l : List Tok), l ++ [Tok.p ".", Tok.ident n] = (l ++ [Tok.p "."]) ++ [Tok.ident n] from by simp]
+    exact last_snoc _ _
+  | index y z => exact ⟨.p "]", by simp only [yield]; exact last_snoc _ _, rfl⟩
+  | group y => exact ⟨.p ")", by simp only [yield]; exact last_snoc _ _, rfl⟩
+
+/-- **Theorem B, expression level**: the terminal string of every derivation tree of the expression grammar (with
+    plain names and strings) is a well-formed expression segment — valid tokens, no unsafe adjacency, the goal
+    tracker agrees at every token and is back in operator position with the same bracket stack at the end -/
+theorem yield_seg : ∀ e : E, gwfA e = true → treeOk e = true → Seg (yield e) := by
+  intro e
+  induction e using Verif.Proofs.JsSemLemmas.E.ind with
+  | hvar n =>
+    intro _ ht
+    simp only [treeOk] at ht
+    obtain ⟨hok, h1, h2, hstep⟩ := ident_facts n ht
+    simpa [yield] using seg_atom (.ident n) hok rfl rfl hstep h1 h2
+  | hlit l =>
+    intro _ ht
+    cases l with
+    | num k =>
+      simpa [yield] using seg_atom (.num k false) rfl rfl rfl (fun σ nl => step_num σ nl k false)
+        (num_facts k false).1 (num_facts k false).2
+    | str s =>
+      simp only [treeOk, litOk] at ht
+      simpa [yield] using seg_atom (.str s) ht rfl rfl (fun σ nl => step_str σ nl s)
+        (by simp [txt, tokText, String.toList_append]) (by simp [txt, tokText, String.toList_append])
+    | «true» =>
+      simpa [yield] using seg_atom (.kw "true") rfl rfl rfl
+        (fun σ nl => by rw [step_name σ nl (.kw "true") "true" rfl rfl, stepName_lit σ _ (by decide)])
+        (by decide) (by decide)
+    | «false» =>
+      simpa [yield] using seg_atom (.kw "false") rfl rfl rfl
+        (fun σ nl => by rw [step_name σ nl (.kw "false") "false" rfl rfl, stepName_lit σ _ (by decide)])
+        (by decide) (by decide)
+    | null =>
+      simpa [yield] using seg_atom (.kw "null") rfl rfl rfl
+        (fun σ nl => by rw [step_name σ nl (.kw "null") "null" rfl rfl, stepName_lit σ _ (by decide)])
+        (by decide) (by decide)
+  | hun op x ih =>
+    intro hg ht
+    have hgx : gwfA x = true := by simp only [gwfA, Bool.and_eq_true] at hg; exact hg.2
+    have hx := ih hgx (by simpa [treeOk] using ht)
+    have hpre : ∀ s, s ∈ ["!", "~", "+", "-", "++", "--"] → Seg (Tok.p s :: yield x) := fun s hs =>
+      seg_prefix (.p s) _ hx (piece_prefix s hs)
+        (by simp only [List.mem_cons, List.not_mem_nil, or_false] at hs; rcases hs with rfl | rfl | rfl | rfl | rfl | rfl <;> rfl)
+        (fun b hb hbS => adj_leader_S s (by
+          simp only [List.mem_cons, List.not_mem_nil, or_false] at hs
+          rcases hs with rfl | rfl | rfl | rfl | rfl | rfl <;> decide) b hb hbS)
+    have hkw : ∀ k, k ∈ ["typeof", "void", "delete"] → Seg (Tok.kw k :: yield x) := fun k hk =>
+      seg_prefix (.kw k) _ hx (piece_kwprefix k hk)
+        (by simp only [List.mem_cons, List.not_mem_nil, or_false] at hk; rcases hk with rfl | rfl | rfl <;> rfl)
+        (fun b _ _ => adj_kwop k (by
+          simp only [List.mem_cons, List.not_mem_nil, or_false] at hk ⊢
+          rcases hk with rfl | rfl | rfl <;> simp) b)
+    cases op with
+    | not => simpa [yield, opTok, UOp.isWord, UOp.text] using hpre "!" (by decide)
+    | bitnot => simpa [yield, opTok, UOp.isWord, UOp.text] using hpre "~" (by decide)
+    | pos => simpa [yield, opTok, UOp.isWord, UOp.text] using hpre "+" (by decide)
+    | neg => simpa [yield, opTok, UOp.isWord, UOp.text] using hpre "-" (by decide)
+    | preinc => simpa [yield, opTok, UOp.isWord, UOp.text] using hpre "++" (by decide)
+    | predec => simpa [yield, opTok, UOp.isWord, UOp.text] using hpre "--" (by decide)
+    | typeof => simpa [yield, opTok, UOp.isWord, UOp.text] using hkw "typeof" (by decide)
+    | void => simpa [yield, opTok, UOp.isWord, UOp.text] using hkw "void" (by decide)
+    | delete => simpa [yield, opTok, UOp.isWord, UOp.text] using hkw "delete" (by decide)
+    | postinc => simpa [yield, UOp.text] using seg_postfix _ "++" (by decide) hx
+    | postdec => simpa [yield, UOp.text] using seg_postfix _ "--" (by decide) hx
+  | hbin op x y ihx ihy =>
+    intro hg ht
+    simp only [gwfA, Bool.and_eq_true] at hg
+    simp only [treeOk, Bool.and_eq_true] at ht
+    have hx := ihx hg.1.2 ht.1
+    have hy := ihy hg.2 ht.2
+    by_cases hw : op.isWord = true
+    · have hk : op.text ∈ ["in", "instanceof"] := by cases op <;> first | (exact absurd hw (by decide)) | decide
+      have := seg_infix _ _ (.kw op.text) hx hy (piece_kwbin op.text hk)
+        (fun a ha haE => adj_E_inof a ha haE op.text hk)
+        (fun b _ _ => adj_kwop op.text (by
+          simp only [List.mem_cons, List.not_mem_nil, or_false] at hk ⊢
+          rcases hk with h | h <;> simp [h]) b)
+      simpa [yield, opTok, hw] using this
+    · have hw' : op.isWord = false := by simpa using hw
+      obtain ⟨h1, h2, h3⟩ := binop_lists op hw'
+      have := seg_infix _ _ (.p op.text) hx hy (piece_binop op.text h1)
+        (fun a _ haE => adj_E_follower a haE op.text h2)
+        (fun b hb hbS => adj_leader_S op.text h3 b hb hbS)
+      simpa [yield, opTok, hw'] using this
+  | hcond c x y ihc ihx ihy =>
+    intro hg ht
+    simp only [gwfA, Bool.and_eq_true] at hg
+    simp only [treeOk, Bool.and_eq_true] at ht
+    have := seg_cond _ _ _ (ihc hg.1.1.2 ht.1.1) (ihx hg.1.2 ht.1.2) (ihy hg.2 ht.2)
+    simpa [yield] using this
+  | hcomma l ih =>
+    intro hg ht
+    simp only [gwfA, Bool.and_eq_true, decide_eq_true_eq] at hg
+    simp only [treeOk] at ht
+    have hne : l ≠ [] := by intro e; subst e; simp at hg
+    have := seg_sep l hne (fun a ha => ih a ha (gwfAItems_mem l hg.2 a ha) (treeOkL_mem l ht a ha))
+    simpa [yield] using this
+  | hcall f args ihf iha =>
+    intro hg ht
+    simp only [gwfA, Bool.and_eq_true] at hg
+    simp only [treeOk, Bool.and_eq_true] at ht
+    have hf := ihf hg.1.2 ht.1
+    by_cases hargs : args = []
+    · subst hargs
+      simpa [yield, yieldSep] using seg_call0 _ hf
+    · have ha := seg_sep args hargs (fun a hm => iha a hm (gwfAItems_mem args hg.2 a hm) (treeOkL_mem args ht.2 a hm))
+      simpa [yield] using seg_call _ _ hf ha
+  | hdot x n ih =>
+    intro hg ht
+    simp only [gwfA, Bool.and_eq_true, decide_eq_true_eq] at hg
+    simp only [treeOk, Bool.and_eq_true] at ht
+    by_cases hnum : ∃ k, x = .lit (.num k)
+    · obtain ⟨k, rfl⟩ := hnum
+      simpa [yield] using seg_numdot k n ht.2
+    · have hn : ∀ k, x ≠ .lit (.num k) := fun k e => hnum ⟨k, e⟩
+      have hx := ih hg.2 ht.1
+      rw [yield_dot_gen x n hn]
+      exact seg_dot _ n hx (last_not_plain x hg.1 hn hx) ht.2
+  | hindex x y ihx ihy =>
+    intro hg ht
+    simp only [gwfA, Bool.and_eq_true] at hg
+    simp only [treeOk, Bool.and_eq_true] at ht
+    simpa [yield] using seg_index _ _ (ihx hg.1.2 ht.1) (ihy hg.2 ht.2)
+  | hgroup x ih =>
+    intro hg ht
+    simp only [gwfA] at hg
+    simp only [treeOk] at ht
+    simpa [yield] using seg_group _ (ih hg ht)
+
 end Verif.Proofs.C09JsTree
